@@ -90,7 +90,11 @@ func (pc *PubkeyCache) ValidatorIndex(pubkey BLSPubkey) (index ValidatorIndex, o
 func (pc *PubkeyCache) unsafeValidatorIndex(pubkey BLSPubkey) (index ValidatorIndex, ok bool) {
 	index, ok = pc.pub2idx[pubkey]
 	if !ok && pc.parent != nil {
-		return pc.parent.ValidatorIndex(pubkey)
+		index, ok = pc.parent.ValidatorIndex(pubkey)
+		// Only the trusted part of the parent is shared history, later parent entries belong to a sibling.
+		if ok && index >= pc.trustedParentCount {
+			return 0, false
+		}
 	}
 	return index, ok
 }
@@ -104,10 +108,14 @@ func (pc *PubkeyCache) AddValidator(index ValidatorIndex, pub BLSPubkey) (*Pubke
 	if indexExists {
 		if existingIndex != index {
 			// conflict detected! Deposit log fork!
+			trusted := existingIndex
+			if index < trusted {
+				trusted = index
+			}
 			forkedPc := &PubkeyCache{
 				parent: pc,
-				// fork out the existing index, only trust the history
-				trustedParentCount: existingIndex,
+				// fork out the existing index, only trust the history before both conflicting entries
+				trustedParentCount: trusted,
 				pub2idx:            make(map[BLSPubkey]ValidatorIndex),
 				idx2pub:            make([]CachedPubkey, 0),
 			}
